@@ -21,7 +21,9 @@
 //!    sibling-list model of expandStart / expandEnd (nearest first; `stopBy` neighbor = first
 //!    sibling only, end = all, rule = up to and including the first sibling satisfying it; no
 //!    sibling selected = the match's own start / end); in particular p <= match.start and
-//!    p + d >= match.end;
+//!    p + d >= match.end. Where a zero-width (MISSING) node sits among the siblings only these
+//!    bounds are asserted (sibling enumeration next to zero-width nodes is not covered by any
+//!    statement; C19 restricts its sibling clauses the same way);
 //!  * `replace_all` edits: one per outermost match (pre-order, a match hides its descendants),
 //!    p_i + d_i <= p_{i+1};
 //!  * the bytes obtained by applying the kept edits (an edit beginning before the end of the
@@ -33,7 +35,10 @@
 //!    rewriter loaded as a stand-alone rule) contributes the edit its own fix makes there, an
 //!    edit beginning before the end of the previously accepted one is dropped; with `joinBy`
 //!    the accepted replacement texts joined by the joiner. When a recomputed edit reaches
-//!    outside the captured text only "no panic" is asserted.
+//!    outside the captured text only "no panic" is asserted. The rule with the transformation is
+//!    run on each matched node separately (`match_node`) so that a panic is blamed on one match.
+//!
+//! Extra arguments (debugging): `--lang <name>` restricts to one language, `--parts 13` to parts.
 
 use ast_grep_config::{from_str, from_yaml_string, DeserializeEnv, Fixer, GlobalRules, RuleConfig, RuleCore, SerializableRuleCore};
 use ast_grep_core::matcher::MatcherExt;
@@ -57,6 +62,21 @@ type Ed = (usize, usize, Vec<u8>);
 type Core = RuleCore<SupportLang>;
 
 const TEMPLATES: &[&str] = &["x", "$A", "($A)", "$$$A", "", "é$B"];
+
+static REPLAY_VERBOSE: std::sync::atomic::AtomicBool = std::sync::atomic::AtomicBool::new(false);
+
+/// every violation goes through here; in replay mode the observed/expected details are printed
+fn viol(rep: &Reporter, sig: &str, case: Value) {
+  if REPLAY_VERBOSE.load(Relaxed) {
+    let mut shown = case.clone();
+    if let Some(o) = shown.as_object_mut() {
+      o.remove("config");
+      o.remove("src");
+    }
+    println!("  violated: {sig}\n    observed/expected details: {shown}");
+  }
+  rep.violation(sig, case);
+}
 
 fn to_ed(e: Edit<String>) -> Ed {
   (e.position, e.deleted_length, e.inserted_text)
@@ -115,14 +135,40 @@ struct Stats {
   parse_errors_on_edit: AtomicU64,
 }
 
+/// deterministic samples: the n smallest offered cases (by length, then text) per part
+struct MinSamples {
+  n: usize,
+  v: std::sync::Mutex<std::collections::BTreeSet<(usize, String)>>,
+}
+impl MinSamples {
+  fn new(n: usize) -> Self {
+    MinSamples { n, v: Default::default() }
+  }
+  fn offer(&self, f: impl FnOnce() -> Value) {
+    if self.n == 0 {
+      return;
+    }
+    let s = f().to_string();
+    let mut v = self.v.lock().unwrap();
+    v.insert((s.len(), s));
+    if v.len() > self.n {
+      let last = v.iter().next_back().cloned().unwrap();
+      v.remove(&last);
+    }
+  }
+  fn take(&self) -> Vec<Value> {
+    self.v.lock().unwrap().iter().map(|(_, s)| serde_json::from_str(s).unwrap()).collect()
+  }
+}
+
 struct Samp {
-  p1: Samples,
-  p2: Samples,
-  p3: Samples,
+  p1: MinSamples,
+  p2: MinSamples,
+  p3: MinSamples,
 }
 impl Samp {
   fn new(n: usize) -> Self {
-    Samp { p1: Samples::new(n), p2: Samples::new(n), p3: Samples::new(n) }
+    Samp { p1: MinSamples::new(n), p2: MinSamples::new(n), p3: MinSamples::new(n) }
   }
   fn take(&self) -> Vec<Value> {
     let mut v = self.p1.take();
@@ -173,7 +219,7 @@ impl FileCtx<'_> {
         let mut c = case();
         c["edit"] = ed_json(e);
         c["source_len"] = json!(self.src.len());
-        self.rep.violation(&format!("{front}:edit:{p}"), c);
+        viol(self.rep, &format!("{front}:edit:{p}"), c);
       }
     }
     ok
@@ -189,7 +235,7 @@ impl FileCtx<'_> {
         if w[0].0 + w[0].1 > w[1].0 {
           let mut c = case();
           c["edits"] = eds_json(edits);
-          self.rep.violation(&format!("{front}:edits-not-ordered-and-disjoint"), c);
+          viol(self.rep, &format!("{front}:edits-not-ordered-and-disjoint"), c);
           return;
         }
       }
@@ -212,7 +258,7 @@ impl FileCtx<'_> {
     if std::str::from_utf8(&expected).is_err() {
       let mut c = case();
       c["edits"] = eds_json(&kept);
-      self.rep.violation(&format!("{front}:rewritten-text-not-utf8"), c);
+      viol(self.rep, &format!("{front}:rewritten-text-not-utf8"), c);
       return;
     }
     if !self.applied.insert(kept.clone()) {
@@ -238,7 +284,7 @@ impl FileCtx<'_> {
         let mut c = case();
         c["edits"] = eds_json(&kept);
         c["panic"] = json!(msg);
-        self.rep.violation(&format!("{front}:astgrep-edit:panic:{}", psig(&msg)), c);
+        viol(self.rep, &format!("{front}:astgrep-edit:panic:{}", psig(&msg)), c);
       }
       Ok(None) => {
         self.st.parse_errors_on_edit.fetch_add(1, Relaxed);
@@ -251,11 +297,11 @@ impl FileCtx<'_> {
           c["edits"] = eds_json(&kept);
           c["expected"] = json!(String::from_utf8_lossy(&expected));
           c["got"] = json!(out);
-          self.rep.violation(&format!("{front}:astgrep-edit-result-differs-from-splice"), c);
+          viol(self.rep, &format!("{front}:astgrep-edit-result-differs-from-splice"), c);
         } else if out.len() + del != src.len() + ins {
           let mut c = case();
           c["edits"] = eds_json(&kept);
-          self.rep.violation(&format!("{front}:length-arithmetic"), c);
+          viol(self.rep, &format!("{front}:length-arithmetic"), c);
         }
       }
     }
@@ -301,7 +347,7 @@ fn part1_source(rep: &Reporter, st: &Stats, samples: &Samp, spec: &LangSpec, src
       Err(msg) => {
         let mut c = case0(TEMPLATES[0]);
         c["panic"] = json!(msg);
-        rep.violation(&format!("p1:replace_all:panic:{}", psig(&msg)), c);
+        viol(rep, &format!("p1:replace_all:panic:{}", psig(&msg)), c);
         continue;
       }
     };
@@ -335,12 +381,12 @@ fn part1_source(rep: &Reporter, st: &Stats, samples: &Samp, spec: &LangSpec, src
         Err(msg) => {
           let mut c = case();
           c["panic"] = json!(msg);
-          rep.violation(&format!("p1:replace_all:panic:{}", psig(&msg)), c);
+          viol(rep, &format!("p1:replace_all:panic:{}", psig(&msg)), c);
           continue;
         }
       };
       st.p1_edits.fetch_add(edits.len() as u64, Relaxed);
-      if *tpl == "($A)" && pat.text.contains("$A") && edits.len() >= 2 && !src.is_ascii() {
+      if *tpl == "($A)" && pat.text.contains("$A") && edits.len() >= 2 && !src.is_ascii() && edits.iter().all(|e| e.2.len() > 2) {
         samples.p1.offer(|| json!({"part": 1, "lang": spec.name, "src": src, "pattern": pat.text, "template": tpl, "edits": eds_json(&edits)}));
       }
       let wf = fc.wf_all("p1:replace_all", &edits, &case);
@@ -348,19 +394,19 @@ fn part1_source(rep: &Reporter, st: &Stats, samples: &Samp, spec: &LangSpec, src
         let mut c = case();
         c["edits"] = eds_json(&edits);
         c["outermost_matches"] = json!(outer);
-        rep.violation("p1:replace_all:not-one-edit-per-outermost-match", c);
+        viol(rep, "p1:replace_all:not-one-edit-per-outermost-match", c);
       } else if wf {
         for (e, m) in edits.iter().zip(&outer) {
           if e.0 != m.0 {
             let mut c = case();
             c["edit"] = ed_json(e);
             c["match"] = json!(m);
-            rep.violation("p1:replace_all:edit-does-not-start-at-match", c);
+            viol(rep, "p1:replace_all:edit-does-not-start-at-match", c);
           } else if e.0 + e.1 > m.1 {
             let mut c = case();
             c["edit"] = ed_json(e);
             c["match"] = json!(m);
-            rep.violation("p1:replace_all:edit-exceeds-match", c);
+            viol(rep, "p1:replace_all:edit-exceeds-match", c);
           }
         }
       }
@@ -371,7 +417,7 @@ fn part1_source(rep: &Reporter, st: &Stats, samples: &Samp, spec: &LangSpec, src
         Err(msg) => {
           let mut c = case();
           c["panic"] = json!(msg);
-          rep.violation(&format!("p1:replace:panic:{}", psig(&msg)), c);
+          viol(rep, &format!("p1:replace:panic:{}", psig(&msg)), c);
         }
         Ok(None) => {}
         Ok(Some(e)) => {
@@ -383,7 +429,7 @@ fn part1_source(rep: &Reporter, st: &Stats, samples: &Samp, spec: &LangSpec, src
               let mut c = case();
               c["edit"] = ed_json(e);
               c["matches"] = json!(all);
-              rep.violation("p1:replace:edit-not-inside-a-match", c);
+              viol(rep, "p1:replace:edit-not-inside-a-match", c);
             }
             fc.check_file("p1:replace", &one, true, &case);
           }
@@ -648,7 +694,7 @@ fn part2_source(rep: &Reporter, st: &Stats, samples: &Samp, spec: &LangSpec, src
       Err(msg) => {
         let mut c = case();
         c["panic"] = json!(msg);
-        rep.violation(&format!("p2:find_all:panic:{}", psig(&msg)), c);
+        viol(rep, &format!("p2:find_all:panic:{}", psig(&msg)), c);
         continue;
       }
     };
@@ -669,7 +715,7 @@ fn part2_source(rep: &Reporter, st: &Stats, samples: &Samp, spec: &LangSpec, src
           let mut c = case();
           c["match"] = json!([r.start, r.end]);
           c["panic"] = json!(msg);
-          rep.violation(&format!("p2:make_edit:panic:{}", psig(&msg)), c);
+          viol(rep, &format!("p2:make_edit:panic:{}", psig(&msg)), c);
           failed = true;
         }
         Ok(e) => edits.push(e),
@@ -687,7 +733,7 @@ fn part2_source(rep: &Reporter, st: &Stats, samples: &Samp, spec: &LangSpec, src
           c["edit"] = ed_json(e);
           c["match"] = json!([ms, me]);
           c["reference_range"] = json!(reference);
-          rep.violation(sig, c);
+          viol(rep, sig, c);
         };
         if !cfg.expands {
           if p != *ms {
@@ -724,7 +770,7 @@ fn part2_source(rep: &Reporter, st: &Stats, samples: &Samp, spec: &LangSpec, src
           bad(&format!("p2:make_edit:expansion:{which}-differs-from-sibling-model{tag}"));
         } else if (p, q) != (*ms, *me) {
           st.p2_edits_widened.fetch_add(1, Relaxed);
-          if src.len() > 12 && cfg.model.start.is_some() && cfg.model.end.is_some() && p < *ms && q > *me {
+          if src.len() >= 5 && src.len() <= 16 && cfg.model.start.is_some() && cfg.model.end.is_some() && p < *ms && q > *me {
             samples.p2.offer(|| json!({"part": 2, "lang": spec.name, "src": src, "fix": cfg.json["fix"], "rule": cfg.json["rule"], "match": [ms, me], "edit": ed_json(e)}));
           }
         }
@@ -751,7 +797,7 @@ fn part2_source(rep: &Reporter, st: &Stats, samples: &Samp, spec: &LangSpec, src
       Err(msg) => {
         let mut c = case();
         c["panic"] = json!(msg);
-        rep.violation(&format!("p2:replace_all:panic:{}", psig(&msg)), c);
+        viol(rep, &format!("p2:replace_all:panic:{}", psig(&msg)), c);
       }
       Ok(es) => {
         st.p2_front_edits.fetch_add(es.len() as u64, Relaxed);
@@ -760,14 +806,14 @@ fn part2_source(rep: &Reporter, st: &Stats, samples: &Samp, spec: &LangSpec, src
           let mut c = case();
           c["edits"] = eds_json(&es);
           c["outermost_matches"] = json!(outer.iter().map(|n| (n.range().start, n.range().end)).collect::<Vec<_>>());
-          rep.violation("p2:replace_all:not-one-edit-per-outermost-match", c);
+          viol(rep, "p2:replace_all:not-one-edit-per-outermost-match", c);
         } else if wf {
           for (e, n) in es.iter().zip(&outer) {
             if !allowed(e, n) {
               let mut c = case();
               c["edit"] = ed_json(e);
               c["match"] = json!([n.range().start, n.range().end]);
-              rep.violation("p2:replace_all:edit-neither-match-nor-expansion", c);
+              viol(rep, "p2:replace_all:edit-neither-match-nor-expansion", c);
             }
           }
           fc.check_file("p2:replace_all", &es, true, &case);
@@ -778,7 +824,7 @@ fn part2_source(rep: &Reporter, st: &Stats, samples: &Samp, spec: &LangSpec, src
       Err(msg) => {
         let mut c = case();
         c["panic"] = json!(msg);
-        rep.violation(&format!("p2:replace:panic:{}", psig(&msg)), c);
+        viol(rep, &format!("p2:replace:panic:{}", psig(&msg)), c);
       }
       Ok(None) => {}
       Ok(Some(e)) => {
@@ -788,7 +834,7 @@ fn part2_source(rep: &Reporter, st: &Stats, samples: &Samp, spec: &LangSpec, src
           if !matches.iter().any(|m| allowed(&one[0], m.get_node())) {
             let mut c = case();
             c["edit"] = ed_json(&one[0]);
-            rep.violation("p2:replace:edit-neither-match-nor-expansion", c);
+            viol(rep, "p2:replace:edit-neither-match-nor-expansion", c);
           }
           fc.check_file("p2:replace", &one, true, &case);
         }
@@ -1005,7 +1051,7 @@ fn part3_source(rep: &Reporter, st: &Stats, samples: &Samp, spec: &LangSpec, src
           c["at"] = json!(at);
           c["blame"] = detail;
           let mode = if cfg.join_by.is_some() { "joinBy" } else { "in-place" };
-          rep.violation(&format!("p3:rewrite:panic:{class}:{mode}:{}", psig(&msg)), c);
+          viol(rep, &format!("p3:rewrite:panic:{class}:{mode}:{}", psig(&msg)), c);
           continue;
         }
       };
@@ -1018,10 +1064,10 @@ fn part3_source(rep: &Reporter, st: &Stats, samples: &Samp, spec: &LangSpec, src
         if fc.wf_all("p3:outer-make_edit", &one, &case) && (one[0].0 != m.range().start || one[0].0 + one[0].1 > m.range().end) {
           let mut c = case();
           c["edit"] = ed_json(&one[0]);
-          rep.violation("p3:outer-make_edit:edit-not-inside-match", c);
+          viol(rep, "p3:outer-make_edit:edit-not-inside-match", c);
         }
       } else {
-        rep.violation("p3:outer-make_edit:panic", case());
+        viol(rep, "p3:outer-make_edit:panic", case());
       }
       if nodes.is_empty() {
         st.p3_empty_capture.fetch_add(1, Relaxed);
@@ -1036,7 +1082,7 @@ fn part3_source(rep: &Reporter, st: &Stats, samples: &Samp, spec: &LangSpec, src
         Err(msg) => {
           let mut c = case();
           c["panic"] = json!(msg);
-          rep.violation(&format!("p3:standalone-rewriter:panic:{}", psig(&msg)), c);
+          viol(rep, &format!("p3:standalone-rewriter:panic:{}", psig(&msg)), c);
           continue;
         }
       };
@@ -1074,7 +1120,7 @@ fn part3_source(rep: &Reporter, st: &Stats, samples: &Samp, spec: &LangSpec, src
       let Some(got) = got else {
         let mut c = case();
         c["match"] = json!([m.range().start, m.range().end]);
-        rep.violation(&format!("p3:rewrite:{mode}:transformed-variable-missing"), c);
+        viol(rep, &format!("p3:rewrite:{mode}:transformed-variable-missing"), c);
         continue;
       };
       // the stored value of a multi-line result is re-indented relative to the line the
@@ -1094,8 +1140,8 @@ fn part3_source(rep: &Reporter, st: &Stats, samples: &Samp, spec: &LangSpec, src
         c["expected"] = json!(String::from_utf8_lossy(&expected));
         c["got"] = json!(String::from_utf8_lossy(&got));
         let what = if kept.len() < rel.len() { "with-overlapping-edits" } else { "disjoint-edits" };
-        rep.violation(&format!("p3:rewrite:{mode}:{n_rw}-rewriters:{what}:transformed-differs-from-spliced-capture"), c);
-      } else if kept.len() >= 2 && kept.len() < rel.len() && src.len() > 10 {
+        viol(rep, &format!("p3:rewrite:{mode}:{n_rw}-rewriters:{what}:transformed-differs-from-spliced-capture"), c);
+      } else if kept.len() >= 2 && kept.len() < rel.len() && src.len() >= 5 && src.len() <= 13 && n_rw == 2 {
         samples.p3.offer(|| json!({"part": 3, "lang": spec.name, "src": src, "outer": cfg.json["rule"], "rewriters": cfg.json["rewriters"], "joinBy": cfg.join_by, "captured": [start, end], "rewriter_edits": eds_json(&edits), "transformed": String::from_utf8_lossy(&got)}));
       }
     }
@@ -1112,7 +1158,8 @@ fn replay(rep: &Reporter, path: &std::path::Path) -> ! {
   let src = case["src"].as_str().unwrap_or_else(|| machinery("replay: no src"));
   let st = Stats::default();
   let samples = Samp::new(0);
-  println!("replaying sig={} ", v["sig"]);
+  REPLAY_VERBOSE.store(true, Relaxed);
+  println!("replaying sig={}\n  lang={} src={}\n  program={}", v["sig"], case["lang"], case["src"], if case["part"] == 1 { json!({"pattern": case["pattern"], "template": case["template"]}) } else { case["config"].clone() });
   match case["part"].as_u64() {
     Some(1) => {
       let text = case["pattern"].as_str().unwrap_or_else(|| machinery("replay: no pattern")).to_string();
@@ -1168,7 +1215,7 @@ fn main() {
     };
     let t0 = rep.elapsed();
     let (pats, generated) = accepted_patterns(spec, 7, 3, |text, msg| {
-      rep.violation(&format!("pattern-new:panic:{}", psig(&msg)), json!({"lang": spec.name, "pattern": text, "panic": msg}))
+      viol(&rep, &format!("pattern-new:panic:{}", psig(&msg)), json!({"lang": spec.name, "pattern": text, "panic": msg}))
     });
     let a = atoms(spec);
     let srcs1 = sources(spec, l1);
